@@ -165,14 +165,49 @@ def Step.clean : Step → Prop
 theorem readLine_lt {s line rest : Bytes} (h : readLine s = some (line, rest)) : rest.length < s.length :=
   cut_rest_lt h
 
+theorem readLineU_lt {s line rest : Bytes} (h : readLineU s = some (line, rest)) : rest.length < s.length := by
+  unfold readLineU at h
+  cases hc : cut s 10 with
+  | some p =>
+    simp only [hc] at h
+    cases h
+    exact cut_rest_lt hc
+  | none =>
+    simp only [hc] at h
+    split at h
+    · simp at h
+    · rename_i hne
+      simp at h
+      obtain ⟨_, rfl⟩ := h
+      cases s with
+      | nil => simp at hne
+      | cons _ _ => simp
+
+/-- `readLineU` says end of data only on the empty string -/
+theorem readLineU_none {s : Bytes} (h : readLineU s = none) : s = [] := by
+  unfold readLineU at h
+  cases hc : cut s 10 with
+  | some p => simp [hc] at h
+  | none =>
+    simp only [hc] at h
+    split at h
+    · rename_i he; simpa using he
+    · simp at h
+
+/-- on a terminated string the line is a terminated one, and what follows is terminated again -/
+theorem readLineU_terminated {s : Bytes} (ht : Terminated s) (hne : s ≠ []) :
+    ∃ line rest, readLineU s = some (line, rest) ∧ cut s 10 = some (line, rest) ∧ Terminated rest := by
+  obtain ⟨line, rest, hc, hr⟩ := ht.cut hne
+  exact ⟨line, rest, by simp [readLineU, hc], hc, hr⟩
+
 theorem uripostStep_decreases (fixed : Bool) (urlOk : Bytes → Bool) (s : Bytes) :
     Step.decreases s (uripostStep fixed urlOk s) := by
   unfold uripostStep
-  cases hr : readLine s with
+  cases hr : readLineU s with
   | none => simp [Step.decreases]
   | some p =>
     obtain ⟨line, rest⟩ := p
-    have hlt := readLine_lt hr
+    have hlt := readLineU_lt hr
     simp only
     unfold uripostLine
     simp only
@@ -228,7 +263,7 @@ theorem headerClass_isErr (h : Bytes) (hnok : ∀ a, decodeHeader h ≠ .ok a) :
 /-- repaired uripost: a failing step fails with an error value (never panic / fatal) -/
 theorem uripostStep_clean (urlOk : Bytes → Bool) (s : Bytes) : Step.clean (uripostStep true urlOk s) := by
   unfold uripostStep
-  cases hr : readLine s with
+  cases hr : readLineU s with
   | none => simp [Step.clean]
   | some p =>
     obtain ⟨line, rest⟩ := p
@@ -334,7 +369,7 @@ theorem headerClass_bad {α} (r : Res α) (h : ∀ a, r ≠ .ok a) : End.bad (he
 theorem uripostStep_fail_bad (fixed : Bool) (urlOk : Bytes → Bool) (s : Bytes) (e : End)
     (h : uripostStep fixed urlOk s = .fail e) : End.bad e := by
   unfold uripostStep at h
-  cases hr : readLine s with
+  cases hr : readLineU s with
   | none => simp [hr] at h
   | some p =>
     obtain ⟨line, rest⟩ := p
@@ -449,12 +484,21 @@ theorem Run.prepend_nil (r : Run) : r.prepend [] = r := by
 theorem Run.cons_prepend (e : Entry) (es : List Entry) (r : Run) : (r.prepend es).cons e = r.prepend (e :: es) := by
   cases r; simp [Run.prepend, Run.cons]
 
+/-- what a step leaves unread satisfies `P` again -/
+def Step.keeps (P : Bytes → Prop) : Step → Prop
+  | .skip rest => P rest
+  | .entry _ rest => P rest
+  | _ => True
+
 /-- compositionality of runs: if the run over `good` ends cleanly having consumed everything, then the run over
-`good ++ junk` delivers good's entries and continues exactly like the run over `junk` -/
+`good ++ junk` delivers good's entries and continues exactly like the run over `junk`.
+`P` is an invariant of the unread part under which a non-final step does not look beyond `good`
+(`True` for the raw decoder, `Terminated` for uripost, whose last line may lack its newline). -/
 theorem runSteps_append (step : Bytes → Step) (hdec : ∀ s, Step.decreases s (step s))
     (hnf : ∀ s e, step s = .fail e → End.bad e)
-    (happ : ∀ good junk, Step.appendOk junk (step good) (step (good ++ junk)))
-    (junk : Bytes) (fuel : Nat) (good : Bytes) (hf : good.length < fuel)
+    (P : Bytes → Prop) (hP : ∀ s, P s → Step.keeps P (step s))
+    (happ : ∀ good junk, P good → Step.appendOk junk (step good) (step (good ++ junk)))
+    (junk : Bytes) (fuel : Nat) (good : Bytes) (hf : good.length < fuel) (hgood : P good)
     (hend : (runSteps step fuel good).end_ = .ok) (hrest : (runSteps step fuel good).rest = []) :
     runSteps step (fuel + junk.length) (good ++ junk) =
       (runSteps step (junk.length + 1) junk).prepend (runSteps step fuel good).entries := by
@@ -465,7 +509,8 @@ theorem runSteps_append (step : Bytes → Step) (hdec : ∀ s, Step.decreases s 
   | zero => omega
   | succ f ih =>
     have hd := hdec good
-    have ha := happ good junk
+    have ha := happ good junk hgood
+    have hk := hP good hgood
     rw [runSteps] at hend hrest ⊢
     cases hs : step good with
     | eof =>
@@ -476,24 +521,43 @@ theorem runSteps_append (step : Bytes → Step) (hdec : ∀ s, Step.decreases s 
       have e : f + 1 + junk.length = junk.length + 1 + f := by omega
       rw [e, this, hJ]
     | skip rest =>
-      rw [hs] at hd ha; simp only [Step.decreases] at hd; simp only [Step.appendOk] at ha
+      rw [hs] at hd ha hk; simp only [Step.decreases] at hd; simp only [Step.appendOk] at ha
+      simp only [Step.keeps] at hk
       simp only [hs] at hend hrest ⊢
       have e : f + 1 + junk.length = (f + junk.length) + 1 := by omega
       rw [e, runSteps, ha]
       simp only
-      exact ih rest (by omega) hend hrest
+      exact ih rest (by omega) hk hend hrest
     | entry en rest =>
-      rw [hs] at hd ha; simp only [Step.decreases] at hd; simp only [Step.appendOk] at ha
+      rw [hs] at hd ha hk; simp only [Step.decreases] at hd; simp only [Step.appendOk] at ha
+      simp only [Step.keeps] at hk
       simp only [hs, Run.cons] at hend hrest ⊢
       have e : f + 1 + junk.length = (f + junk.length) + 1 := by omega
       rw [e, runSteps, ha]
       simp only
-      rw [ih rest (by omega) hend hrest, Run.cons_prepend]
+      rw [ih rest (by omega) hk hend hrest, Run.cons_prepend]
     | fail e' =>
       simp only [hs] at hend
       subst hend
       -- the run over `good` ended ok, so no step of it failed
       exact absurd rfl (hnf good .ok hs).2
+
+/-- a run that says "end of data" only on the empty string leaves nothing unread when it ends well -/
+theorem runSteps_rest_nil (step : Bytes → Step) (heof : ∀ s, step s = .eof → s = [])
+    (hnf : ∀ s e, step s = .fail e → End.bad e) (fuel : Nat) (s : Bytes)
+    (hend : (runSteps step fuel s).end_ = .ok) : (runSteps step fuel s).rest = [] := by
+  induction fuel generalizing s with
+  | zero => simp [runSteps] at hend
+  | succ f ih =>
+    rw [runSteps] at hend ⊢
+    cases hs : step s with
+    | eof => simp only; exact heof s hs
+    | skip rest => simp only [hs] at hend ⊢; exact ih rest hend
+    | entry e rest => simp only [hs, Run.cons] at hend ⊢; exact ih rest hend
+    | fail e =>
+      simp only [hs] at hend
+      subst hend
+      exact absurd rfl (hnf s .ok hs).2
 
 /-! ### more bytes after the file: what a non-final step does is unchanged -/
 
@@ -515,16 +579,66 @@ theorem uripostLine_appendOk (fixed : Bool) (urlOk : Bytes → Bool) (line rest 
       · simp [Step.appendOk]
     · simp [Step.appendOk]
 
-theorem uripostStep_appendOk (fixed : Bool) (urlOk : Bytes → Bool) (good junk : Bytes) :
+/-- the remainder of a line step is a suffix of what followed the line -/
+theorem uripostLine_keeps (fixed : Bool) (urlOk : Bytes → Bool) (line rest : Bytes) (h : Terminated rest) :
+    Step.keeps Terminated (uripostLine fixed urlOk line rest) := by
+  unfold uripostLine
+  simp only
+  split
+  · exact h
+  · split
+    · split <;> simp [Step.keeps, h]
+    · split
+      · split
+        · simp [Step.keeps]
+        · split
+          · rename_i hb
+            have := (readBody_ok_split hb).2.2.2.2
+            simp only [Step.keeps]
+            rw [this]; exact h.drop _
+          · simp [Step.keeps]
+      · simp [Step.keeps]
+    · simp [Step.keeps]
+
+theorem uripostStep_keeps (fixed : Bool) (urlOk : Bytes → Bool) (s : Bytes) (h : Terminated s) :
+    Step.keeps Terminated (uripostStep fixed urlOk s) := by
+  unfold uripostStep
+  by_cases hne : s = []
+  · subst hne; simp [readLineU, cut, Step.keeps]
+  · obtain ⟨line, rest, hr, _, ht⟩ := readLineU_terminated h hne
+    simp only [hr]
+    exact uripostLine_keeps fixed urlOk line rest ht
+
+theorem uripostStep_appendOk (fixed : Bool) (urlOk : Bytes → Bool) (good junk : Bytes) (h : Terminated good) :
     Step.appendOk junk (uripostStep fixed urlOk good) (uripostStep fixed urlOk (good ++ junk)) := by
   unfold uripostStep
-  cases hr : readLine good with
-  | none => simp [Step.appendOk]
+  by_cases hne : good = []
+  · subst hne; simp [readLineU, cut, Step.appendOk]
+  · obtain ⟨line, rest, hr, hc, _⟩ := readLineU_terminated h hne
+    have : readLineU (good ++ junk) = some (line, rest ++ junk) := by
+      simp [readLineU, cut_append hc junk]
+    simp only [hr, this]
+    exact uripostLine_appendOk fixed urlOk line rest junk
+
+theorem uripostStep_eof (fixed : Bool) (urlOk : Bytes → Bool) (s : Bytes) (h : uripostStep fixed urlOk s = .eof) : s = [] := by
+  unfold uripostStep at h
+  cases hr : readLineU s with
+  | none => exact readLineU_none hr
   | some p =>
     obtain ⟨line, rest⟩ := p
-    have : readLine (good ++ junk) = some (line, rest ++ junk) := cut_append hr junk
-    simp only [this]
-    exact uripostLine_appendOk fixed urlOk line rest junk
+    simp only [hr] at h
+    unfold uripostLine at h
+    simp only at h
+    split at h
+    · simp at h
+    · split at h
+      · split at h <;> simp at h
+      · split at h
+        · split at h
+          · simp at h
+          · split at h <;> simp at h
+        · simp at h
+      · simp at h
 
 theorem rawLine_appendOk (fixed : Bool) (line rest junk : Bytes) :
     Step.appendOk junk (rawLine fixed line rest) (rawLine fixed line (rest ++ junk)) := by
@@ -618,5 +732,95 @@ theorem uriLines_append (urlOk : Bytes → Bool) (l1 l2 : List Bytes) (h : (uriL
       rw [hl] at hc; simp only [LineRes.clean] at hc
       subst h
       simp [End.isErr] at hc
+
+/-! ### whole runs of the size-prefixed decoders -/
+
+theorem clean_returned {r : Run} (h : End.clean r.end_) : r.end_ = .ok ∨ ∃ c, r.end_ = .err c := by
+  cases he : r.end_ with
+  | ok => left; rfl
+  | err c => right; exact ⟨c, rfl⟩
+  | panic => rw [he] at h; exact absurd h (by simp [End.clean])
+  | fatal => rw [he] at h; exact absurd h (by simp [End.clean])
+  | fuel => rw [he] at h; exact absurd h (by simp [End.clean])
+
+theorem uripostRun_append (fixed : Bool) (urlOk : Bytes → Bool) (good junk : Bytes)
+    (hend : (uripostRun fixed urlOk good).end_ = .ok) (hterm : Terminated good) :
+    uripostRun fixed urlOk (good ++ junk) =
+      (uripostRun fixed urlOk junk).prepend (uripostRun fixed urlOk good).entries := by
+  have hrest : (uripostRun fixed urlOk good).rest = [] :=
+    runSteps_rest_nil _ (uripostStep_eof fixed urlOk) (uripostStep_fail_bad fixed urlOk) _ good hend
+  have := runSteps_append (uripostStep fixed urlOk) (uripostStep_decreases fixed urlOk) (uripostStep_fail_bad fixed urlOk)
+    Terminated (uripostStep_keeps fixed urlOk) (uripostStep_appendOk fixed urlOk) junk (good.length + 1) good (by omega)
+    hterm hend hrest
+  unfold uripostRun
+  have e : (good ++ junk).length + 1 = good.length + 1 + junk.length := by simp; omega
+  rw [e]; exact this
+
+theorem rawRun_append (fixed : Bool) (good junk : Bytes)
+    (hend : (rawRun fixed good).end_ = .ok) (hrest : (rawRun fixed good).rest = []) :
+    rawRun fixed (good ++ junk) = (rawRun fixed junk).prepend (rawRun fixed good).entries := by
+  have := runSteps_append (rawStep fixed) (rawStep_decreases fixed) (rawStep_fail_bad fixed)
+    (fun _ => True) (fun s _ => by cases rawStep fixed s <;> simp [Step.keeps])
+    (fun good junk _ => rawStep_appendOk fixed good junk) junk (good.length + 1) good (by omega) trivial hend hrest
+  unfold rawRun
+  have e : (good ++ junk).length + 1 = good.length + 1 + junk.length := by simp; omega
+  rw [e]; exact this
+
+/-- a block of uri lines that decodes cleanly, then a refused line: the block's entries, then that refusal -/
+theorem uriLines_reject (urlOk : Bytes → Bool) (pre : List Bytes) (bad : Bytes) (post : List Bytes) (e : End)
+    (hpre : (uriLines urlOk pre).end_ = .ok) (hbad : uriLine urlOk bad = .fail e) :
+    uriLines urlOk (pre ++ bad :: post) = ⟨(uriLines urlOk pre).entries, e, []⟩ ∧ End.isErr e := by
+  constructor
+  · rw [uriLines_append urlOk pre _ hpre]
+    rw [uriLines]; simp [hbad, Run.prepend]
+  · have := uriLine_clean urlOk bad
+    rw [hbad] at this; exact this
+
+/-! ### grpc/json -/
+
+
+theorem grpcLines_end_clean (coe : Bool) (json : Bytes → Option Bytes) (ls : List Bytes) :
+    End.clean (grpcLines coe json ls).end_ := by
+  induction ls with
+  | nil => simp [grpcLines, End.clean]
+  | cons l rest ih =>
+    unfold grpcLines
+    split
+    · simp [End.clean]
+    · split
+      · simpa [GRun.cons] using ih
+      · split
+        · simpa [GRun.cons] using ih
+        · simp [End.clean]
+
+theorem GRun.prepend_nil (r : GRun) : r.prepend [] = r := by cases r; simp [GRun.prepend]
+theorem GRun.cons_prepend (e : GEntry) (es : List GEntry) (r : GRun) : (r.prepend es).cons e = r.prepend (e :: es) := by
+  cases r; simp [GRun.prepend, GRun.cons]
+
+/-- lines after a block of lines the loop got through: the block's entries first, then whatever the later lines give -/
+theorem grpcLines_append (coe : Bool) (json : Bytes → Option Bytes) (l1 l2 : List Bytes)
+    (h : (grpcLines coe json l1).end_ = .ok) :
+    grpcLines coe json (l1 ++ l2) = (grpcLines coe json l2).prepend (grpcLines coe json l1).entries := by
+  induction l1 with
+  | nil => simp [grpcLines, GRun.prepend_nil]
+  | cons l rest ih =>
+    simp only [List.cons_append]
+    rw [grpcLines] at h ⊢
+    conv => rhs; rw [grpcLines]
+    split
+    · rename_i hl; simp [hl] at h
+    · rename_i hl
+      simp only [hl, if_false] at h
+      cases hj : json (dropCR l) with
+      | some tag =>
+        simp only [hj, GRun.cons] at h ⊢
+        rw [ih h]; simp [GRun.prepend]
+      | none =>
+        simp only [hj] at h ⊢
+        cases coe with
+        | true =>
+          simp only [if_true, GRun.cons] at h ⊢
+          rw [ih h]; simp [GRun.prepend]
+        | false => simp at h
 
 end Pandora.Proofs.C13
